@@ -113,7 +113,10 @@ static void expandTlv(KSI_TLV *t, int depth, uint64_t &count) { if (depth <= 0 |
 static void tTlv(KSI_CTX *ctx, const HeapBuf &in, Case &c) {
     KSI_TLV *t = nullptr; int res = KSI_TLV_parseBlob(ctx, in.p, in.n, &t);
     if (res == KSI_OK && t) { c.cls("tlv:parsed"); c.nontrivial = true; std::vector<char> buf(8192); KSI_TLV_toString(t, buf.data(), buf.size()); uint64_t cnt = 0; expandTlv(t, 6, cnt); KSI_TLV_toString(t, buf.data(), buf.size());
-        KSI_TLV *cl = nullptr; if (KSI_TLV_clone(t, &cl) == KSI_OK) KSI_TLV_free(cl); unsigned char *raw = nullptr; size_t rl = 0; if (KSI_TLV_serialize(t, &raw, &rl) == KSI_OK) KSI_free(raw);
+        KSI_TLV *cl = nullptr; if (KSI_TLV_clone(t, &cl) == KSI_OK) KSI_TLV_free(cl); unsigned char *raw = nullptr; size_t rl = 0; if (KSI_TLV_serialize(t, &raw, &rl) == KSI_OK) { KSI_free(raw);
+            // serialization into caller-supplied buffers of the exact size and up to six octets too small (exact-size heap blocks: a header written in front of or behind them is seen)
+            for (size_t cut = 0; cut <= 6 && cut <= rl; cut++) { HeapBuf ob(rl - cut); size_t got = 0; int rs = KSI_TLV_serialize_ex(t, ob.p, ob.n, &got); if (rs == KSI_OK && got > ob.n) { VF_FAIL(c, "C12:tlv:serialize-ex-reports-more-than-the-buffer", "KSI_TLV_serialize_ex returned KSI_OK with " + num((long long)got) + " octets for a buffer of " + num((long long)ob.n)); break; }
+                size_t w = 0; HeapBuf wb(rl - cut); KSI_TLV_writeBytes(t, wb.p, wb.n, &w, 0); } c.cls("tlv:serialized-into-caller-buffers"); }
         }
     KSI_TLV_free(t);
 }
